@@ -24,6 +24,12 @@ on every path before presence is applied; no presence => down, presence and
 not frozen => up, frozen stays.  C08.6 state bookkeeping: since is reset only
 on a state change; Master._freeze_server marks only instances found on that
 server.
+Added by the seeding rounds - C08.1 every contribution to the collected list
+is judged on its own expiry definition (no deadline carried over from the
+previous instance); C08.5 the recorded (state, since) is restored on every
+path before presence is applied and the up/down sets are exact; C08.6 whatever
+un-places an instance clears its unschedule mark, and _check_pending_start
+keeps an entry only while the instance's server exists and is not down.
 Does NOT decide timing ('in the first cycle after the timeout') over clock
 sequences.
 """
